@@ -662,7 +662,7 @@ def _vname(v):
 
 def _op_brief(o):
     if o['op'] == 'script':
-        return {'op': 'script', 'sid': o['sid'], 'path': o.get('path'), 'code_lines': o['code'].count('\n')}
+        return {'op': 'script', 'sid': o['sid'], 'path': o.get('path'), 'code_lines': (o.get('code') or '').count('\n')}
     return o
 
 
